@@ -24,7 +24,8 @@ META = {
         "inputs: any str -- G9 character soup with dictionary fragments (Hypothesis), atheris/libFuzzer campaigns on UTF-8 bytes "
         "(empty and seeded corpora, dictionary), G4 token/line mutations, every token-aligned prefix and random character prefixes "
         "of Python and xonsh seeds (incl. nasty characters), G1 programs.  Entry points: generate_tokens exhausted, "
-        "parse_string exec and eval, parse_file on the same bytes (a fraction of cases).  Oracle: terminates under the watchdog and "
+        "parse_string exec and eval, parse_file on the same bytes (a fraction of cases); version-gated programs and their mutations under "
+        "py_version 3.8..3.13 and verbose; numeric literals beyond the int digit limit / float range in ten embeddings.  Oracle: terminates under the watchdog and "
         "the outcome is a Module/Expression (never None), SyntaxError (incl. subclasses) or TokenError; anything else is bucketed by "
         "(entry point, exception type, innermost peg_parser frame).  non-trivial = tokenizer produced >= 3 significant tokens "
         "before the outcome; distinct by text."
@@ -108,6 +109,22 @@ def check(rec, case):
         results.pop("tokenize")  # do not spend two more timeouts on the same input
     else:
         results["eval"] = run_entry(lambda: XP.parse_string(src, mode="eval"))
+    if case.get("options"):
+        # the documented options of the entry points: every value of py_version the grammar distinguishes, with and
+        # without verbose (trace output discarded) -- totality is claimed for the entry points, not for their defaults
+        import contextlib
+        import io
+
+        class _Discard(io.TextIOBase):
+            def write(self, s):
+                return len(s)
+
+        for v in ((3, 8), (3, 10), (3, 11), (3, 12), (3, 13)):
+            results[f"exec-py{v[0]}.{v[1]}"] = run_entry(lambda v=v: XP.parse_string(src, mode="exec", py_version=v))
+        if len(src) < 300:
+            with contextlib.redirect_stdout(_Discard()):
+                results["exec-verbose"] = run_entry(lambda: XP.parse_string(src, mode="exec", verbose=True))
+                results["exec-verbose-py3.8"] = run_entry(lambda: XP.parse_string(src, mode="exec", verbose=True, py_version=(3, 8)))
     if "eval" in results and (case.get("file") or (len(src) % 5 == 0 and "\x00" not in src)):
         try:
             data = src.encode("utf-8")
@@ -201,6 +218,29 @@ def _search(rec, ctx):
 
     for i, s in enumerate(ctx.shard(list(lex.string_concat_matrix(xonsh=False)) + list(lex.string_concat_matrix(xonsh=True)))):
         check(rec, {"src": ("x = " + s + "\n") if i % 2 else ("f(" + s + ")"), "stream": "string-concat-matrix"})
+
+    # version-gated syntax (valid, broken and mutated) under every py_version and verbose
+    from .c15 import GATED
+
+    def gated(rnd):
+        base = GATED[rnd.randrange(len(GATED))]
+        r = rnd.random()
+        if r < 0.4:
+            src = base
+        elif r < 0.8:
+            src, _ = mutate.mutate(rnd, base, xonsh=rnd.random() < 0.3, nasty=rnd.random() < 0.2)
+        else:
+            src = seeds[rnd.randrange(len(seeds))][:200] + "\n" + base
+        check(rec, {"src": src, "stream": "gated-syntax-with-options", "options": True})
+
+    drive(st.randoms(use_true_random=False), gated, ctx.budget(1200, 20000), ctx.hseed("gated"))
+
+    # numeric literals at and beyond the limits of their evaluation (int digit limit, float overflow, huge exponents)
+    BIG = ["9" * 4300, "9" * 4301, "0" * 4301, "7" * 20000, "1_" * 2200 + "1", "0x" + "f" * 5000, "0b" + "1" * 20000, "0o" + "7" * 6000, "1e99999", "1" * 400 + ".5e-" + "9" * 30, "9" * 4301 + "j",
+           "9" * 4301 + ".0", "1" + "0" * 5000 + "e-5000", "0." + "0" * 5000 + "1", "-" + "9" * 4301, "1e" + "9" * 4301]
+    for i, lit in enumerate(ctx.shard(BIG)):
+        for tmpl in ("x = {n}\n", "{n}", "f({n})[{n}]\n", "match v:\n  case {n}: pass\n", "match v:\n  case -{n}+1j: pass\n", "def f(a={n}): pass\n", "$(echo {n})\n", "x = {n}if y else z\n", "f!({n})\n", "f'{{x:{n}}}'\n"):
+            check(rec, {"src": tmpl.replace("{n}", lit), "stream": "numeric-limits", "options": i % 4 == 0})
 
     for s in ctx.shard(seeds):
         check(rec, {"src": s, "stream": "xonsh-seed", "file": True})
